@@ -133,7 +133,7 @@ fn clean_mrow_children_restructure_pass<'a>(old_children: &[Element<'a>]) -> Opt
             if  child_name == "mi" || (child_name == "mtext" && as_text(child).len() < 4) {
                 // break mi/mtext that is done as "(g)", etc. Even if it isn't 'g', 'l', etc., it probably shouldn't be an mi/text.
                 let text = as_text(child);
-                if text.starts_with('(') && text.ends_with(')') {
+                if text.len() > 2 && text.starts_with('(') && text.ends_with(')') {     // "()" has nothing between the parens: splitting it would leave an empty 'mi'
                     let doc = child.document();
                     let state = create_mathml_element(&doc, "mi");
                     state.set_text(&text[1..text.len()-1]);
